@@ -1,4 +1,4 @@
-"""C31: loaded objects that refer to each other can be pickled (repaired by pony commit 2eed4bc).
+"""C31: loaded objects that refer to each other can be pickled (repaired by pony commit 5b3154d).
 
 Entity.__reduce__ used to return (unpickle_entity, (d,)) where d held every loaded non-collection attribute value -- related *objects* included.
 pickle memoises an object only after the arguments of its reduce value have been written, so when Student.passport and Passport.student (the
